@@ -873,6 +873,18 @@ def elementwise_sequence(E, val, allow=None):
             if len(live) != 1 or len(live) != len(S["paths"]) or any(e[0] != "loop" and not (allow and allow(e)) for e in live[0].eff):
                 return None       # (nested effect-free closures / loops are fine: they only compute the element)
             return m[0], live[0].val, ("elem", m[0], "cl%s" % m[1][1])
+        tk = is_call(a[0], "take", 2)
+        rw = is_call(tk[0], "repeat_with", 1) if tk is not None else None
+        if rw is not None and isinstance(rw[0], tuple) and rw[0] and rw[0][0] == "closure":
+            # `repeat_with(|| e).take(n).collect()`: n values of e, in order  ==  (0..n).map(|_| e).collect()
+            S = E.loop_summaries.get("cl%s" % rw[0][1])
+            if S is None:
+                return None
+            live = [p for p in S["paths"] if p.exit is None]
+            if len(live) != 1 or len(live) != len(S["paths"]) or live[0].pc or any(e[0] != "loop" and not (allow and allow(e)) for e in live[0].eff):
+                return None
+            rng = ("struct", "std::ops::Range", (("start", ("lit", "0")), ("end", tk[1])))
+            return rng, live[0].val, ("elem", rng, "cl%s" % rw[0][1])
         return None
     if isinstance(val, tuple) and len(val) == 4 and val[0] == "loopout":
         name, lid, entry = val[1], val[2], val[3]
@@ -1042,3 +1054,63 @@ def walk_element(paths, pred):
             if isinstance(t, tuple) and t and t[0] == "is" and pred(t[1]):
                 found.add(t[1])
     return list(found)[0] if len(found) == 1 else None
+
+
+def range_nest(E, t, leaf_effect=None):
+    """a nested vector built element by element from index ranges `0..d`, outermost first:
+         (0..d).map(|_| inner).collect()        |        let mut v = Vec::new(); for _ in 0..d { v.push(inner) }; v
+    -> ([d0, d1, ..], innermost element term, effects of the innermost body)  -- every level unconditional, one element per index,
+    no effects besides building the element (the innermost body may contain the effects accepted by leaf_effect); else None."""
+    dims = []
+    cur = t
+    while True:
+        a = is_call(cur, "collect", 1)
+        m = is_call(a[0], "map", 2) if a is not None else None
+        if m is not None and isinstance(m[1], tuple) and m[1] and m[1][0] == "closure":
+            rng = range_of(m[0])
+            S = E.loop_summaries.get("cl%s" % m[1][1])
+            if rng is None or rng[0] != ("lit", "0") or S is None or len(S["paths"]) != 1:
+                return None
+            p = S["paths"][0]
+            if p.exit is not None or p.pc:
+                return None
+            own = [e for e in p.eff if e[0] != "loop"]
+            val = p.val
+        elif isinstance(cur, tuple) and len(cur) == 4 and cur[0] == "loopout":
+            name, lid, entry = cur[1], cur[2], cur[3]
+            S = E.loop_summaries.get(lid)
+            if S is None or S.get("kind") != "for" or len(S["paths"]) != 1:
+                break
+            if not (is_call(entry, "new", 0) is not None or is_call(entry, "with_capacity", 1) is not None or entry == ("vec", ())):
+                return None
+            rng = range_of(S["iter"])
+            p = S["paths"][0]
+            if rng is None or rng[0] != ("lit", "0") or p.exit is not None or p.pc:
+                return None
+            pushes = [e for e in p.eff if e[0] == "push" and e[1] == ("local", name)]
+            if len(pushes) != 1:
+                return None
+            own = [e for e in p.eff if e[0] != "loop" and e is not pushes[0]]
+            val = pushes[0][2]
+        else:
+            break
+        dims.append(rng[1])
+        inner = range_nest(E, val, leaf_effect)
+        if inner is not None and inner[0]:
+            if own:
+                return None          # an outer level only assembles its rows
+            return dims + inner[0], inner[1], inner[2]
+        if any(not (leaf_effect and leaf_effect(e)) for e in own):
+            return None
+        return dims, val, own
+    return [], t, []
+
+
+def entry_value(path, t):
+    """value a `loopin(name, lid)` local had when its loop was entered, read off the enclosing path (which holds `loopout(name, lid, entry)`)"""
+    if not (isinstance(t, tuple) and len(t) == 3 and t[0] == "loopin"):
+        return t
+    for v in path.env.values():
+        for x in find_terms(v, lambda y: y[0] == "loopout" and len(y) == 4 and y[1] == t[1] and y[2] == t[2]):
+            return x[3]
+    return t
